@@ -1,11 +1,12 @@
 import N0Verif.Proofs.FindAll
 import N0Verif.Proofs.FindAllDesc
+import N0Verif.Proofs.FindAllList
 import N0Verif.Props.C01
 /-!
 # C19 — dictionary findall returns complete, resolvable, history-independent results
 
-Only property statements live here; the lemmas are in `Proofs/FindAll.lean` and
-`Proofs/FindAllDesc.lean`, the model in
+Only property statements live here; the lemmas are in `Proofs/FindAll.lean`,
+`Proofs/FindAllDesc.lean` and `Proofs/FindAllList.lean` (list-rooted containers), the model in
 `Model/FindAll.lean` (it follows the code with `fixes/C19-a.patch`, `fixes/C19-b.patch` and
 `fixes/C19-c.patch` applied).
 
@@ -45,6 +46,15 @@ theorem C19_history_independent (fuel : Nat) (hist : List (Val × Str)) :
     runHist fuel fresh hist = (hist.map (fun te => (findallTop fuel fresh te.1 te.2).res), fresh) :=
   runHist_fresh fuel hist
 
+/-- **The result depends only on the tree and the expression.**  Whatever searches (on dict- or
+list-rooted containers, succeeding or raising) were run before in the same process, the outcome of
+a search is the outcome of `findallTop fuel fresh t e` — a function of `t` and `e` alone. -/
+theorem C19_depends_only (fuel : Nat) (hist : List (Val × Str)) (t : Val) (e : Str) :
+    (runHist fuel fresh (hist ++ [(t, e)])).1 =
+      (runHist fuel fresh hist).1 ++ [(findallTop fuel fresh t e).res] := by
+  rw [C19_history_independent, C19_history_independent]
+  simp
+
 /-- the same for `findfirst` (it calls `findall` once) -/
 theorem C19_findfirst_state (fuel : Nat) (t : Val) (e : Str) (re : Bool) :
     (findfirstTop fuel fresh t e re).2 = fresh := by
@@ -63,12 +73,17 @@ theorem C19_list_changes_last_only (re : Bool) (fuel : Nat) (node : Val) (toks :
   fa_dl re fuel node toks fl ps
 
 /-- **The model returns values only, and only values of the tree.**  `findallTop` is a function of
-the tree, the expression and the contents of the defaults; the tree is an input and is not part
-of what a search returns (`Out`), so there is nothing through which the model could change it —
-that the real code never writes into the tree is checked by the evaluators `search`/`history`
-(encoding before = after).  What can be said inside the model: every value of the returned
-mapping occurs in the tree searched (it is the tree, an element of a list or the value of an
-entry of a dictionary occurring in it) — the search neither invents nor rebuilds values. -/
+the tree, the expression and the contents of the defaults.  The model does **not** thread the tree:
+the tree is an argument and is not part of what a search returns (`Out` = result, contents of the
+two default objects), so "the tree component is returned unchanged" is true by construction and has
+no content as a theorem.  The claim is therefore checked where it has content, on the implementation:
+stream `fa.pure` (driver operation of `Drv/FindAllList.lean`) compares, for dict- and list-rooted
+containers, the model's answer *followed by the tree it was given* with the real result *followed by
+the encoding of the real container after the call*; the evaluators `search`/`history`/`mixed` compare
+the encoding before and after.  What can be said inside the model: every value of the returned
+mapping occurs in the tree searched (it is the tree, an element of a list or the value of an entry of
+a dictionary occurring in it) — the search neither invents nor rebuilds values — for both roots.
+That the result depends on nothing but the tree and the expression is `C19_depends_only`. -/
 theorem C19_pure (fuel : Nat) (t : Val) (e : Str) (f : Found)
     (h : (findallTop fuel fresh t e).res = .ok (some f)) : ∀ kv ∈ f, Sub t kv.2 :=
   fa_sub t true fuel t (tokens e) [] [] Sub.refl (by intro kv hkv; cases hkv) f h
@@ -357,5 +372,194 @@ example : (findallTop 20 fresh exTree ['a', '/', 'k', '[', 't', 'e', 'x', 't', '
 -- entry is visited by `*` and overwrites the pair of the first
 example : (findallTop 20 fresh (.dict .n0 [(['a'], .dict .n0 [(['n'], .int 1)]), (['a'], .dict .n0 [(['n'], .int 2)])])
     ['/', '/', '*', '/', 'n']).res = .ok (some [(['/', '/', 'a', '/', 'n'], .int 2)]) := by decide
+
+/-! ## 7. list-rooted containers (`n0list.findall`)
+
+`n0list.findall(xpath)` calls the same `findall(self, xpath)` as `n0dict.findall` does, so the
+model's entry point is the same `findallTop`, applied to `.list cls xs`.  The search starts on a
+list node with an empty path list: the first `[*]`/index step rebinds the local name to `[""]`, the
+first element of the path list carries no name (`"[1][0]"`) and the keys reported are
+`"//" ++ "[1][0]/a/b[2]"` — the canonical xpath of a position `p` below a list root is
+`'/' :: '/' :: renderPos p`.  Sections 1 and 3 (`C19_state_invariant`, `C19_history_independent`,
+`C19_depends_only`, `C19_pure`, `C19_findfirst`, …) and `C19_fanout`, `C19_descendant_positions`,
+`C19_descendant_distinct` quantify over every `Val` and hold for list roots as stated. -/
+
+/-- **An exact path finds exactly its node (list root).**  For a list-rooted tree and a position
+`[n] ++ rest` made of indexes of container elements and plain keys (`PathOk`), searching its
+canonical xpath — with the prefix `//` as `findall` reports it, with `/`, or with none
+(`//[1]/a`, `/[1]/a`, `[1]/a`) — returns exactly one pair: `"//" ++` rendered position and the node
+there; the defaults are untouched. -/
+theorem C19_exact_path_list (cls : Cls) (xs : List Val) (n : Nat) (rest : Pos) (c : Val)
+    (h : PathOk (.list cls xs) (.idx n :: rest) c) (lead : Lead) (fuel : Nat) (hf : fuel > rest.length + 1) :
+    findallTop fuel fresh (.list cls xs) (leadStr lead ++ renderPos (.idx n :: rest)) =
+      ⟨.ok (some [('/' :: '/' :: renderPos (.idx n :: rest), c)]), [], []⟩ := by
+  have hp : PlainPos (.idx n :: rest) := h.plain
+  show fa true fuel _ (tokens _) [] [] = _
+  rw [fal_tokens_render lead n rest hp, fa_exact true (.idx n :: rest) _ c [] [] fuel h (by simpa using hf),
+    fal_keyOf_rooted (q := .idx n :: rest) trivial (by simp) hp]
+  rfl
+
+/-- **Fan-out at the list root.**  A name applied to a list root whose elements are dictionaries
+or lists returns the outcomes of *all* elements, element `i` searched for the same expression under
+the path `[i]`, merged in order (`C19_fanout_all` requires a non-empty path list, i.e. a list below
+the root; this is the case of the root itself). -/
+theorem C19_fanout_all_root (re : Bool) (fuel : Nat) (cls : Cls) (xs : List Val) (name : Str) (rest : List Str)
+    (ps : PS) (hn : classify name = .name name) (hall : ∀ x ∈ xs, FindAll.isContainer x = true) :
+    (fa re (fuel + 2) (.list cls xs) (name :: rest) [] ps).res =
+      mergeAll (fanCalls (fun c cur => fa re fuel c (name :: rest) cur (push ps cur (.list cls xs)))
+        [] [] 0 xs) [] :=
+  fal_fanout_root re fuel cls xs name rest ps hn hall
+
+/-- **Completeness of the descendant wildcard on a list root, in document order.**  On a
+list-rooted tree whose lists (the root included) contain only containers, `'//*/name'` returns
+exactly the pairs (`"//" ++` rendered `p`, node at `p`) for the positions `p` of `descV` — every
+node called `name` at any depth below the elements (`C19_descendant_positions`), element by
+element, a dictionary's own entry first, nothing else. -/
+theorem C19_descendant_complete_list (cls : Cls) (xs : List Val) (name : Str) (hn : PlainKey name)
+    (hk : KeysOkV (.list cls xs)) (hc : ContOkV (.list cls xs)) :
+    ∃ n, ∀ fuel ≥ n,
+      (findallTop fuel fresh (.list cls xs) (['/', '/', '*', '/'] ++ name)).res =
+        .ok (some ((descV name (.list cls xs)).map (fun pv => ('/' :: '/' :: renderPos pv.1, pv.2)))) := by
+  obtain ⟨n, hN⟩ := fal_descendant true hn cls xs hk hc
+  refine ⟨n, fun fuel hf => ?_⟩
+  show (fa true fuel _ (tokens _) [] []).res = _
+  rw [fad_tokens_desc hn]
+  exact hN fuel hf
+
+/-- the statement in the form "found iff it is a node called `name`" (membership, both ways) -/
+theorem C19_descendant_complete_iff_list (cls : Cls) (xs : List Val) (name : Str) (hn : PlainKey name)
+    (hk : KeysOkV (.list cls xs)) (hc : ContOkV (.list cls xs)) :
+    ∃ n, ∀ fuel ≥ n, ∃ f,
+      (findallTop fuel fresh (.list cls xs) (['/', '/', '*', '/'] ++ name)).res = .ok (some f) ∧
+      ∀ xp v, (xp, v) ∈ f ↔
+        ∃ p, getAt (.list cls xs) (p ++ [.key name]) = some v ∧ xp = '/' :: '/' :: renderPos (p ++ [.key name]) := by
+  obtain ⟨n, hN⟩ := C19_descendant_complete_list cls xs name hn hk hc
+  refine ⟨n, fun fuel hf => ⟨_, hN fuel hf, fun xp v => ?_⟩⟩
+  simp only [List.mem_map, Prod.mk.injEq]
+  constructor
+  · rintro ⟨⟨p, w⟩, hm, rfl, rfl⟩
+    obtain ⟨⟨q, rfl⟩, hg⟩ := (C19_descendant_positions _ name hk p w).1 hm
+    exact ⟨q, hg, rfl⟩
+  · rintro ⟨q, hg, rfl⟩
+    exact ⟨(q ++ [.key name], v), (C19_descendant_positions _ name hk _ v).2 ⟨⟨q, rfl⟩, hg⟩, rfl, rfl⟩
+
+/-- **Every key spells the position of its value (list root).**  For every expression, every pair
+`(xp, v)` of a result on a list root has `xp = "//" ++ steps` — first the integer indexes applied at
+the root (`[1][0]`, negative ones and `last()-k` as the integer written/evaluated), then plain keys
+with their attached indexes — and plain Python indexing along `steps` from the root reaches `v`.
+Proved through the invariant `FalInv` (`Proofs/FindAllList.lean`) over every branch of `_findall`
+with the state threading of the model, the rebinding of the empty path list to `[""]` included. -/
+theorem C19_keys_spell_list (cls : Cls) (xs : List Val) (e : Str) (hk : KeysOkV (.list cls xs))
+    (fuel : Nat) (f : Found) (h : (findallTop fuel fresh (.list cls xs) e).res = .ok (some f))
+    (xp : Str) (v : Val) (hm : (xp, v) ∈ f) :
+    ∃ steps, PlainSteps steps ∧ xp = renderSp .two steps ∧ stepsGet (.list cls xs) steps = some v := by
+  obtain ⟨is, gs, hp, hh, hkey, hget⟩ := fal_findall_spells cls xs hk e fuel f h (xp, v) hm
+  exact ⟨falSteps is gs, fal_plainSteps is gs hp, hkey.trans (fal_keyOf_renderSp is gs hh hp), hget⟩
+
+/-- **Every key of every result on a list root resolves through item access and `get` on the
+`n0list` to the value found** (model of `n0list.__getitem__`/`get`, C01 engine;
+`C01_spellings_string_list`; the key `'//'` = the root itself), whatever the expression, and the
+lookup leaves the tree as it is. -/
+theorem C19_resolves_all_list (cls : Cls) (xs : List Val) (e : Str) (hk : KeysOkV (.list cls xs))
+    (fuel : Nat) (f : Found) (h : (findallTop fuel fresh (.list cls xs) e).res = .ok (some f))
+    (xp : Str) (v : Val) (hm : (xp, v) ∈ f) :
+    ∃ n, ∀ fuel' ≥ n, getItem fuel' (.list cls xs) xp = (.list cls xs, .ok v) ∧
+      ∀ d, get fuel' (.list cls xs) xp d = (.list cls xs, .ok v) := by
+  obtain ⟨steps, hp, rfl, hget⟩ := C19_keys_spell_list cls xs e hk fuel f h xp v hm
+  by_cases hne : steps = []
+  · subst hne
+    rw [fad_stepsGet_nil] at hget
+    cases hget
+    refine ⟨1, fun fuel' hf => ?_⟩
+    obtain ⟨k, rfl⟩ : ∃ k, fuel' = k + 1 := ⟨fuel' - 1, by omega⟩
+    exact ⟨fal_getItem_root k cls xs, fun d => fal_get_root k cls xs d⟩
+  · exact ⟨2 * steps.length, fun fuel' hf =>
+      ⟨(C01.C01_spellings_string_list cls xs .two steps v Val.none hp hne hget fuel' hf).1,
+       fun d => (C01.C01_spellings_string_list cls xs .two steps v d hp hne hget fuel' hf).2⟩⟩
+
+/-- **The key of an exact-path result on a list root resolves** through item access and `get` to
+the node at that position, tree unchanged (`C01_list_root_node` covers the spellings `[1]/a` and
+`/[1]/a`; the `//` spelling `findall` reports goes through `C01_spellings_string_list`). -/
+theorem C19_resolves_list (cls : Cls) (xs : List Val) (n : Nat) (rest : Pos) (c : Val)
+    (hk : KeysOkV (.list cls xs)) (h : PathOk (.list cls xs) (.idx n :: rest) c) (lead : Lead)
+    (fuel : Nat) (hf : fuel > rest.length + 1) :
+    ∃ m, ∀ fuel' ≥ m,
+      getItem fuel' (.list cls xs) ('/' :: '/' :: renderPos (.idx n :: rest)) = (.list cls xs, .ok c) ∧
+      ∀ d, get fuel' (.list cls xs) ('/' :: '/' :: renderPos (.idx n :: rest)) d = (.list cls xs, .ok c) := by
+  have hex := C19_exact_path_list cls xs n rest c h lead fuel hf
+  exact C19_resolves_all_list cls xs _ hk fuel _ (by rw [hex]) _ c (by simp)
+
+/-- a list root: dict elements, a nested list with a dict and a list of lists, an empty dict -/
+def exList : Val :=
+  .list .n0 [.dict .n0 [(['n'], .int 1), (['s'], .list .n0 [.dict .n0 [(['n'], .int 2)]])],
+             .list .plain [.dict .plain [(['n'], .int 5)],
+                           .list .plain [.dict .plain [(['x'], .dict .plain [(['n'], .str ['V'])])]]],
+             .dict .n0 []]
+
+/-- a list root whose elements are scalars (outside the quantifier of the descendant theorem) -/
+def exScalars : Val := .list .n0 [.int 1, .str ['x'], .none]
+
+/-- outside the quantifier: scalars directly in the list root under a wildcard / a name raise -/
+theorem C19_scalar_in_list_root_cex :
+    (findallTop 20 fresh exScalars ['/', '/', '*', '/', 'n']).res = .error .IndexError ∧
+    (findallTop 20 fresh exScalars ['n']).res = .error .IndexError ∧
+    (findallTop 20 fresh exScalars ['[', '0', ']']).res = .error .IndexError := by decide
+
+-- `C19_descendant_complete_list` & co.: the hypotheses hold, four nodes at depths 2..5 in document order
+example : KeysOkV exList ∧ ContOkV exList := by
+  have pk : ∀ c : Char, plainChar c = true → PlainKey [c] :=
+    fun c h => ⟨by simp, by simpa using h, by simp⟩
+  simp only [exList, KeysOkV, KeysOkK, KeysOkL, ContOkV, ContOkK, ContOkL, lookup, FindAll.isContainer]
+  refine ⟨?_, by decide⟩
+  repeat' apply And.intro
+  all_goals first | exact pk _ (by decide) | trivial | decide
+example : descV ['n'] exList = [([.idx 0, .key ['n']], .int 1), ([.idx 0, .key ['s'], .idx 0, .key ['n']], .int 2),
+    ([.idx 1, .idx 0, .key ['n']], .int 5), ([.idx 1, .idx 1, .idx 0, .key ['x'], .key ['n']], .str ['V'])] := by
+  simp [exList, descV, descK, descL, lookup]
+example : (findallTop 20 fresh exList ['/', '/', '*', '/', 'n']).res
+    = .ok (some [(['/', '/', '[', '0', ']', '/', 'n'], .int 1),
+                 (['/', '/', '[', '0', ']', '/', 's', '[', '0', ']', '/', 'n'], .int 2),
+                 (['/', '/', '[', '1', ']', '[', '0', ']', '/', 'n'], .int 5),
+                 (['/', '/', '[', '1', ']', '[', '1', ']', '[', '0', ']', '/', 'x', '/', 'n'], .str ['V'])]) := by decide
+-- an empty list root: nothing to find, an empty mapping (not an exception)
+example : (findallTop 20 fresh (.list .n0 []) ['/', '/', '*', '/', 'n']).res = .ok (some []) := by decide
+-- `C19_exact_path_list`: index, index, index, key, key; the three prefixes
+example : PathOk exList [.idx 1, .idx 1, .idx 0, .key ['x'], .key ['n']] (.str ['V']) := by
+  refine ⟨_, _, _, rfl, rfl, rfl, ?_⟩
+  refine ⟨_, _, _, rfl, rfl, rfl, ?_⟩
+  refine ⟨_, _, _, rfl, rfl, rfl, ?_⟩
+  refine ⟨⟨by decide, by decide, by decide⟩, _, _, _, rfl, rfl, ?_⟩
+  exact ⟨⟨by decide, by decide, by decide⟩, _, _, _, rfl, rfl, rfl⟩
+example : findallTop 20 fresh exList ['[', '1', ']', '[', '1', ']', '[', '0', ']', '/', 'x', '/', 'n']
+    = ⟨.ok (some [(['/', '/', '[', '1', ']', '[', '1', ']', '[', '0', ']', '/', 'x', '/', 'n'], .str ['V'])]), [], []⟩ := by decide
+example : findallTop 20 fresh exList ['/', '/', '[', '0', ']', '/', 's']
+    = ⟨.ok (some [(['/', '/', '[', '0', ']', '/', 's'], .list .n0 [.dict .n0 [(['n'], .int 2)]])]), [], []⟩ := by decide
+-- `C19_fanout_all_root`: a name at the root visits the dict elements and, through the nested list, its elements
+example : (findallTop 20 fresh (.list .n0 [.dict .n0 [(['n'], .int 1)], .list .n0 [.dict .n0 [(['n'], .int 2)]], .dict .n0 []]) ['n']).res
+    = .ok (some [(['/', '/', '[', '0', ']', '/', 'n'], .int 1), (['/', '/', '[', '1', ']', '[', '0', ']', '/', 'n'], .int 2)]) := by decide
+-- `C19_keys_spell_list` / `C19_resolves_all_list`: negative index and `last()` at the root, `[*]`, `'..'`, `text()`
+def exListExpr : Str := ['[', '-', '2', ']', '/', '[', 'l', 'a', 's', 't', '(', ')', ']', '/', '[', '*', ']', '/', 'x', '/', '.', '.']
+example : (findallTop 20 fresh exList exListExpr).res
+    = .ok (some [(['/', '/', '[', '-', '2', ']', '[', '-', '1', ']', '[', '0', ']'],
+        .dict .plain [(['x'], .dict .plain [(['n'], .str ['V'])])])]) := by decide
+example : getItem 20 exList ['/', '/', '[', '-', '2', ']', '[', '-', '1', ']', '[', '0', ']']
+    = (exList, .ok (.dict .plain [(['x'], .dict .plain [(['n'], .str ['V'])])])) := by decide
+example : (findallTop 20 fresh exList ['[', '1', ']', '[', '1', ']', '/', 'x', '/', 'n', '[', 't', 'e', 'x', 't', '(', ')', '=', 'v', ']']).res
+    = .ok (some [(['/', '/', '[', '1', ']', '[', '1', ']', '[', '0', ']', '/', 'x', '/', 'n'], .str ['V'])]) := by decide
+-- the root itself under the key `'//'` (steps = []), also when its elements are scalars; `'..'` above the root
+example : (findallTop 20 fresh exScalars ['/', '/']).res = .ok (some [(['/', '/'], exScalars)]) := by decide
+example : getItem 20 exScalars ['/', '/'] = (exScalars, .ok exScalars) := by decide
+example : KeysOkV exScalars := by simp [exScalars, KeysOkV, KeysOkL]
+example : (findallTop 20 fresh exList ['[', '0', ']', '/', '.', '.']).res = .error .KeyError := by decide
+-- history: list-rooted and dict-rooted searches interleaved, one raising; findfirst none / many on a list root
+example : (runHist 20 fresh [(exList, ['n']), (exTree, ['.', '.']), (exScalars, ['n']), (exList, ['n'])]).1
+    = [.ok (some [(['/', '/', '[', '0', ']', '/', 'n'], .int 1), (['/', '/', '[', '1', ']', '[', '0', ']', '/', 'n'], .int 5)]),
+       .error .KeyError, .error .IndexError,
+       .ok (some [(['/', '/', '[', '0', ']', '/', 'n'], .int 1), (['/', '/', '[', '1', ']', '[', '0', ']', '/', 'n'], .int 5)])] := by decide
+example : (findfirstTop 20 fresh exList ['n'] true).1 = .error .IndexError := by decide
+example : (findfirstTop 20 fresh exList ['n'] false).1 = .ok (some (['/', '/', '[', '0', ']', '/', 'n'], .int 1)) := by decide
+example : (findfirstTop 20 fresh exList ['z'] true).1 = .error .IndexError := by decide
+example : (findfirstTop 20 fresh exList ['z'] false).1 = .ok Option.none := by decide
+example : (findfirstTop 20 fresh exList ['[', '2', ']'] true).1 = .ok (some (['/', '/', '[', '2', ']'], .dict .n0 [])) := by decide
 
 end N0.C19
